@@ -72,9 +72,9 @@ pub fn scenario(rec: &mut Rec, ctx: &Ctx, idx: u64, rng: &mut rand_chacha::ChaCh
     sc.t = rng.gen_range(1..=3);
   }
   // two scenarios of every run sit just beyond the 8-bit threshold boundary
-  let large = idx == 1 || idx == 2;
+  let large = (1..=5).contains(&idx);
   if large {
-    sc.t = 255 + idx as u32;
+    sc.t = [127u32, 128, 129, 256, 257][idx as usize - 1];
     sc.src = RandSrc::Local;
   }
   let t = sc.t as usize;
@@ -84,6 +84,8 @@ pub fn scenario(rec: &mut Rec, ctx: &Ctx, idx: u64, rng: &mut rand_chacha::ChaCh
     rng.gen_range(0..=t.min(10))
   };
   let extra = if large { 2 } else { extra };
+  // now and then far more reports than the threshold needs
+  let extra = if !large && !force_small && idx % 97 == 5 && t <= 8 { 100 + extra } else { extra };
   let n = t + extra;
   let auxes: Vec<Option<Vec<u8>>> =
     (0..n).map(|_| aux(rng, sc.measurement.len(), thorough)).collect();
@@ -263,9 +265,48 @@ pub fn aux_class(a: &Option<Vec<u8>>, mlen: usize) -> u8 {
   }
 }
 
+/// every measurement length and every associated-data length 0..=max once, at
+/// small thresholds: generate -> encode -> decode -> recover -> decrypt all
+fn length_sweep(rec: &mut Rec, _ctx: &Ctx, idx: u64, rng: &mut rand_chacha::ChaCha20Rng) {
+  let l = (idx / 2) as usize;
+  let (m, auxes): (Vec<u8>, Vec<Option<Vec<u8>>>) = if idx % 2 == 0 {
+    (rand_bytes(rng, l), vec![None, Some(vec![]), Some(rand_bytes(rng, 3))])
+  } else {
+    (rand_bytes(rng, 16), vec![Some(rand_bytes(rng, l)), None, Some(rand_bytes(rng, l))])
+  };
+  let sc = Scenario { measurement: m, epoch: rand_bytes_in(rng, 0..4), t: rng.gen_range(1..=3), src: RandSrc::Local };
+  rec.evals += 1;
+  rec.ev("length_sweep_scenarios");
+  rec.case(&("len", idx));
+  let reps = match sc.make_reports(rng, &auxes) {
+    Ok(r) => r,
+    Err(e) => {
+      rec.violation("generate-failed", e, json!({"length": l}));
+      return;
+    }
+  };
+  let decoded: Option<Vec<Message>> = reps.iter().map(|r| Message::from_bytes(&r.bytes)).collect();
+  let decoded = match decoded {
+    Some(d) => d,
+    None => {
+      rec.violation("wire-roundtrip", format!("honest report rejected (length sweep, {} bytes)", l), replay_of(&sc, &reps, &[], idx));
+      return;
+    }
+  };
+  let shares: Vec<Share> = decoded.iter().map(|m| m.share.clone()).collect();
+  rec.ev("recover");
+  match share_recover(&shares) {
+    Ok(c) => reveal_all(rec, &sc, &reps, &decoded, &c.get_message(), idx, &[0, 1, 2]),
+    Err(e) => rec.violation("recover-failed:length-sweep", format!("{} (length {})", e, l), replay_of(&sc, &reps, &[0, 1, 2], idx)),
+  }
+}
+
 pub fn run(ctx: &Ctx) -> Rec {
   let n = ctx.n(8000, 120_000);
   let mut rec = par_run(ctx, "scenario", n, |rec, i, rng| scenario(rec, ctx, i, rng));
+  let max_len: u64 = if ctx.thorough() { 1200 } else { 420 };
+  rec.merge(par_run(ctx, "length-sweep", 2 * (max_len + 1), |rec, i, rng| length_sweep(rec, ctx, i, rng)));
+  rec.note("length_sweep_max", json!(max_len));
   let _ = HashMap::<u8, u8>::new();
   rec.note("scenarios", json!(n));
   rec
